@@ -15,6 +15,12 @@ def check(tr):
     ctx = None  # currently open top-level back-end call
     ended = False
     probes = tr.hist.counters
+    # population-based training: a clone is decided in on_trial_result (STOP below max_t pushes (source, config) on a
+    # stack) and carried out by a later suggest (pop).  Whether the source's checkpoint was still there when the
+    # decision was taken tells a stale decision (KF4) from a source that should not have been eligible at all.
+    pbt = scen["kind"] == "pbt"
+    max_t = scen["scheduler"].get("max_t")
+    decision_stack, clone_decided_at, deleted_at, last_call = [], None, {}, None
 
     def bad(rule, msg, seq, **tags):
         out.append(V("C20", rule, tr, msg, seq, **tags))
@@ -35,8 +41,10 @@ def check(tr):
             elif m == "start_trial" and e.get("ckpt") is not None:
                 probes["probe.clones"] = probes.get("probe.clones", 0) + 1
                 if e.get("src_exists") is False and e["ckpt"] in ever:
-                    bad("R4.clone_source_deleted", "new trial started from the checkpoint of trial %s which was deleted before (trial %s is %s)" % (
-                        e["ckpt"], e["ckpt"], state.get(e["ckpt"])), e["s"], src_state=state.get(e["ckpt"]))
+                    gone = bool(pbt and clone_decided_at is not None and deleted_at.get(e["ckpt"], float("inf")) < clone_decided_at)
+                    bad("R4.clone_source_deleted", "new trial started from the checkpoint of trial %s which was deleted before (trial %s is %s%s)" % (
+                        e["ckpt"], e["ckpt"], state.get(e["ckpt"]), ", already deleted when the clone was decided" if gone else ""),
+                        e["s"], src_state=state.get(e["ckpt"]), gone_at_decision=gone)
             elif m == "stop_all":
                 ended = True
         elif k in ("b.ret", "b.exc"):
@@ -52,14 +60,22 @@ def check(tr):
             removable.update(e["trials"])
         elif k == "s.call":
             m = e["m"]
+            last_call = e
             if m == "on_trial_complete":
                 state[e["trial"]] = "completed"
             elif m == "on_trial_error":
                 if state.get(e["trial"]) not in ("paused", "stopped"):
                     state[e["trial"]] = "failed"
+        elif k == "s.ret" and e["m"] == "suggest":
+            r = e.get("ret")
+            if pbt and r is not None and r.get("new") and r.get("ckpt") is not None:
+                clone_decided_at = decision_stack.pop() if decision_stack else None
         elif k == "s.ret" and e["m"] == "on_trial_result":
             if e.get("ret") == "STOP":
                 state[e["trial"]] = "stopped"
+                res = (last_call or {}).get("result") or {}
+                if pbt and max_t is not None and res.get("epoch") is not None and int(res["epoch"]) < max_t:
+                    decision_stack.append(e["s"])
             elif e.get("ret") == "PAUSE":
                 state[e["trial"]] = "paused"
         elif k == "cb.tuning_end":
@@ -68,6 +84,7 @@ def check(tr):
             t = e["trial"]
             if not e.get("existed"):
                 continue
+            deleted_at.setdefault(t, e["s"])
             probes["probe.checkpoints_deleted"] = probes.get("probe.checkpoints_deleted", 0) + 1
             st = state.get(t)
             inside = ctx["m"] if ctx is not None else None
